@@ -105,7 +105,10 @@ impl<'a, T: Send> Future for SendFuture<'a, T> {
 
 impl<'a, T: Send> Drop for SendFuture<'a, T> {
   fn drop(&mut self) {
-    self.unregister();
+    // Still registered here means the future is dropped before it completed.
+    if let Some(id) = self.my_id.take() {
+      self.shared.cancel_wait(Role::Send, id);
+    }
   }
 }
 
@@ -186,7 +189,10 @@ impl<'a, T: Send> Future for RecvFuture<'a, T> {
 
 impl<'a, T: Send> Drop for RecvFuture<'a, T> {
   fn drop(&mut self) {
-    self.unregister();
+    // Still registered here means the future is dropped before it completed.
+    if let Some(id) = self.my_id.take() {
+      self.shared.cancel_wait(Role::Recv, id);
+    }
   }
 }
 
@@ -281,7 +287,10 @@ impl<'a, T: Send> Future for SendBatchFuture<'a, T> {
 
 impl<'a, T: Send> Drop for SendBatchFuture<'a, T> {
   fn drop(&mut self) {
-    self.unregister();
+    // Still registered here means the future is dropped before it completed.
+    if let Some(id) = self.my_id.take() {
+      self.shared.cancel_wait(Role::Send, id);
+    }
   }
 }
 
@@ -390,7 +399,10 @@ impl<'a, T: Send> Future for SendBatchMutFuture<'a, T> {
 
 impl<'a, T: Send> Drop for SendBatchMutFuture<'a, T> {
   fn drop(&mut self) {
-    self.unregister();
+    // Still registered here means the future is dropped before it completed.
+    if let Some(id) = self.my_id.take() {
+      self.shared.cancel_wait(Role::Send, id);
+    }
     if !self.done {
       // Cancelled mid-flight: hand the unsent remainder back to the caller.
       self.restore_unsent();
@@ -494,7 +506,10 @@ impl<'a, T: Send> Future for RecvBatchFuture<'a, T> {
 
 impl<'a, T: Send> Drop for RecvBatchFuture<'a, T> {
   fn drop(&mut self) {
-    self.unregister();
+    // Still registered here means the future is dropped before it completed.
+    if let Some(id) = self.my_id.take() {
+      self.shared.cancel_wait(Role::Recv, id);
+    }
   }
 }
 
@@ -598,7 +613,10 @@ impl<'a, T: Send> Future for RecvBatchMutFuture<'a, T> {
 
 impl<'a, T: Send> Drop for RecvBatchMutFuture<'a, T> {
   fn drop(&mut self) {
-    self.unregister();
+    // Still registered here means the future is dropped before it completed.
+    if let Some(id) = self.my_id.take() {
+      self.shared.cancel_wait(Role::Recv, id);
+    }
   }
 }
 
